@@ -79,7 +79,7 @@ def plan(ctx):
     add(L.make_shape("C", [2, 3, 1], kinds=["DI", "IDI", "I"]))
     add(L.make_shape("D", [4], kinds=["DIII"]))
     add(L.make_shape("E", [1, 1, 1, 1], kinds=["D", "I", "I", "D"]))
-    for i in range(8):
+    for i in range(12):
         add(random_shape(ctx, "R%d" % i, 2 + i % 3, 2 + i % 4, "thorough", i), strace=(i == 1))
     # per-file `-- atlas:txmode` directives
     add(L.make_shape("Dn", [2, 2, 2], directives={1: "none"}), modes=("file",), tag="directive")
@@ -97,7 +97,7 @@ def plan(ctx):
     for m in MODES:
         exp = L.expected_trace(a, m, L.observe(a, None))
         rnd = ctx.rand("double", m)
-        for at in rnd.sample(exp, 3):
+        for at in rnd.sample(exp, 4):
             add(a, modes=(m,), prefix=[{"via": "hook", "at": at.replace(" ", ":")}], tag="double-kill")
     # write-ahead log instead of the rollback journal
     add(a, params="_journal_mode=WAL", tag="wal", strace=True)
